@@ -1,5 +1,5 @@
-#!/usr/bin/env python3
-"""Record the code fingerprint of /repo's current tree (run on the clean tree after every change to /repo that the model
+#!/venv/bin/python
+"""Run with the interpreter the checks use (/venv/bin/python tools/mkfingerprint.py).  Record the code fingerprint of /repo's current tree (run on the clean tree after every change to /repo that the model
 has been validated against): tools/source_fingerprint.json.  A tree that differs from it gets a longer search in the quick
 tier (tools/check.py: source_changed)."""
 import json
@@ -15,5 +15,7 @@ dirty = subprocess.run(['git', '-C', check.REPO, 'status', '--short'], capture_o
 if dirty:
     sys.exit('refusing: %s has uncommitted changes\n%s' % (check.REPO, dirty))
 with open(check.FINGERPRINT, 'w') as f:
-    json.dump(check.source_fingerprint(), f, indent=1, sort_keys=True)
+    fp = check.source_fingerprint()
+    fp['python'] = '%d.%d' % sys.version_info[:2]
+    json.dump(fp, f, indent=1, sort_keys=True)
 print('wrote', check.FINGERPRINT)
